@@ -34,6 +34,9 @@ ASSUMPTIONS = [
     "tolerances: 1e-9 (plain laws), 1e-7 (OpenTURNS truncation) and 1e-6 (OpenTURNS symbolic transformation, whose "
     "CDF OpenTURNS obtains numerically) and 1e-3 standard deviations for the moments of truncated/transformed laws "
     "(numerical integration inside OpenTURNS); truncated/transformed laws are drawn with shape parameters >= 1.5",
+    "icdf(cdf(x)) = x of an OpenTURNS truncated / transformed law (numerical quantile) is judged through the CDF residual: "
+    "|x' - x| <= tol*IQR or |F(x') - F(x)| <= tol with tol = 1e-7 (truncated), 1e-6 (transformed), 3e-6 (both), i.e. "
+    "|dx| <= tol / pdf(x); for plain laws only a CDF equal within 1e-13 excuses a difference in x",
     "equality of the numerical ranges of SciPy and OpenTURNS is not demanded; a range must be finite, inside the "
     "support and leave at most 1e-6 probability on each side",
     "the reported support of an OpenTURNS *transformed* unbounded law is OpenTURNS' numerical range; this is "
@@ -128,8 +131,8 @@ CLS = {"uniform": "UniformDistribution", "normal": "NormalDistribution", "lognor
 
 def shards(tier, seed):
     n = 16
-    reps = {"quick": 3, "thorough": 72}[tier]
-    spaces = {"quick": 30, "thorough": 520}[tier]
+    reps = {"quick": 6, "thorough": 200}[tier]
+    spaces = {"quick": 60, "thorough": 800}[tier]
     return [{"seed": subseed(seed, PID, i), "reps": reps, "n_spaces": spaces,
              "budget_s": {"quick": 350, "thorough": 3000}[tier]} for i in range(n)]
 
@@ -219,6 +222,10 @@ def seed_space(ps, lib, seed):
 
 # --------------------------------------------------------------------------- tolerances and small predicates
 def tol_of(desc):
+    if desc.get("transform") and desc.get("trunc"):
+        # ot.TruncatedDistribution(ot.CompositeDistribution(...)).computeQuantile is off by up to 7.4e-7 in probability
+        # (measured with OpenTURNS alone, see notes/C19.md (g)); 4x margin
+        return 3e-6
     if desc.get("transform"):
         return 1e-6
     if desc.get("trunc"):
@@ -421,7 +428,11 @@ def judge_dist(lib, desc, law, rep, seed):
             rep.count("icdf_of_cdf")
             back = float(g.compute_inverse_cdf(float(ci)))
             if abs(back - x) > tol * scale + cond_pad(desc, float(x)):
-                if abs(float(g.compute_cdf(back)) - ci) > 1e-13:
+                # plain laws: only a flat CDF (equal to 1e-13) excuses a difference in x.  OpenTURNS truncated /
+                # transformed laws have a *numerical* quantile: it is judged through the CDF residual, i.e.
+                # |dx| <= tol_p / pdf(x) written with the observed and the closed-form CDF
+                ptol = tol if (desc.get("transform") or desc.get("trunc")) else 1e-13
+                if abs(float(g.compute_cdf(back)) - ci) > ptol and abs(float(law.cdf(back)) - float(law.cdf(x))) > ptol:
                     rep.violation(f"{sig}:inverse-cdf-of-cdf-is-not-identity", "icdf(cdf(x)) = x", desc,
                                   observed={"x": x, "cdf": ci, "icdf(cdf)": back}, expected=x)
                     break
@@ -835,7 +846,8 @@ def judge_space(lib, case, model, comps, X, U, rep, seed):
                 return None
             if abs(xb[i] - x[i]) > tol * law_scale(c["law"]) + cond_pad(c["desc"], float(x[i])):
                 # equal in probability is as lossless as double precision allows where the CDF is flat
-                if not cdf_within(c["law"], c["desc"], float(xb[i]), float(t[i]), 1e-13):
+                if not cdf_within(c["law"], c["desc"], float(xb[i]), float(t[i]),
+                                  tol if (c["desc"].get("transform") or c["desc"].get("trunc")) else 1e-13):
                     fail("roundtrip", "untransform-of-transform-is-not-identity", "untransform_vect(transform_vect(x)) = x", i,
                          {"x": x[i], "t": t[i], "back": xb[i]}, x[i], x)
                     return None
